@@ -1,0 +1,22 @@
+//go:build verif
+
+package process
+
+// Contracts for the deductive verifier in /verif (govc). Comments only; compiled solely with -tags verif.
+
+// ---------------------------------------------------------------------------------------------
+// The child process gets only the environment it is given (C10)
+//
+// exec.Cmd uses the parent's whole environment when Cmd.Env is nil or when it is seeded from Cmd.Environ() /
+// os.Environ(). ExecCommand only ever APPENDS its own sandbox variables to Cmd.Env and never reads the
+// invoking environment; ExecWithTimeout appends the caller's environment to that.
+//@ func (Executor).ExecCommand
+//@   requires e != nil
+//@   opt nopanic=off
+//@   opt inline=off
+//@   opt precall=off
+//@   opt panics=allowed
+//@   callsite (Cmd).Environ never [C10]: false
+//@   callsite os.Environ never [C10]: false
+//@   callsite os.Getenv never [C10]: false
+//@   callsite os.LookupEnv never [C10]: false
